@@ -278,7 +278,10 @@ func TestVerif_C01(t *testing.T) {
 	if vfOnlySub("big") && !vfReplayMode() {
 		// 70 KB - 2.5 MB inputs of every text family, examined in full and under large limits
 		kinds := []string{"html-giant-comment", "html-giant-script", "json-array", "geojson-decider-last", "csv", "ndjson-long-line", "text-latin-tail", "filler"}
-		sizes := []int{70000, 1100000, 2500000}
+		sizes := []int{70000, 1100000}
+		if vfThorough() {
+			sizes = append(sizes, 2500000)
+		}
 		i := 0
 		for _, k := range kinds {
 			for _, n := range sizes {
